@@ -918,6 +918,24 @@ where
                 return bad("exhaust.interleaved", format!("{name}: after {k} samples through next_sample(), into_iter() yielded {} samples {got:?}, expected the remaining {}: {:?}, then None for good", got.len(), exp.len() - k, &exp[k..]));
             }
         }
+        // the Iterator protocol (nth, skip, step_by, count, last, size_hint) of the three iterator
+        // adaptors agrees with next(); for the small programs only (each check rebuilds the tree
+        // a few hundred times)
+        if p.size() <= 2 && m.t <= 8 {
+            let fresh = || {
+                let mut w = Watch::default();
+                build_tree::<F>(p, &mut Ext(None), &mut w, 0, &mut 0, h + 4)
+            };
+            if let Some(x) = common::iterproto::check(&|| fresh().until_exhausted(), &m.frames[..m.t], false) {
+                return bad("exhaust.iterator", format!("{name}: until_exhausted(): {x}"));
+            }
+            if let Some(x) = common::iterproto::check(&|| fresh().take(m.t + 1), &m.frames[..m.t + 1], true) {
+                return bad("exhaust.iterator", format!("{name}: take({}): {x}", m.t + 1));
+            }
+            if let Some(x) = common::iterproto::check(&|| fresh().into_interleaved_samples().into_iter(), &exp, false) {
+                return bad("exhaust.iterator", format!("{name}: into_interleaved_samples().into_iter(): {x}"));
+            }
+        }
         // 4. lift: the iterator is handed to the closure as the first leaf
         if let Leaf::Iter(len) = p.first_main_leaf() {
             let frames: Vec<F> = (0..len as usize).map(|k| F::coded(1, k)).collect();
